@@ -710,6 +710,7 @@ func c20KeyFault(legacy bool, res *WRes) {
 }
 
 type c20Job struct {
+	Cache  bool
 	Fault  bool
 	Writer string
 	Debug  bool
@@ -725,6 +726,15 @@ func init() {
 			return nil, err
 		}
 		res := &WRes{}
+		if j.Cache {
+			for _, wr := range c20CacheWriters {
+				for _, ps := range c20CachePresets {
+					c20CacheRun(c20CacheCase{Writer: wr, Preset: ps}, res)
+					res.Evals++
+				}
+			}
+			return res, nil
+		}
 		if j.Fault {
 			for _, f := range c18Flows {
 				n := len(c18Trace(f, false))
@@ -842,6 +852,15 @@ func init() {
 		c20RunStore(c, res)
 		return res.Viol, nil
 	}
+	replayFns["c20cache"] = func(raw json.RawMessage) ([]Violation, error) {
+		var c c20CacheCase
+		if err := json.Unmarshal(raw, &c); err != nil {
+			return nil, err
+		}
+		res := &WRes{}
+		c20CacheRun(c, res)
+		return res.Viol, nil
+	}
 	registerCheck("C20", "exploration", 150*time.Second, 25*time.Minute, func(r *Run) {
 		depth := 2
 		if !r.Quick() {
@@ -850,6 +869,7 @@ func init() {
 		var jobs []any
 		jobs = append(jobs, c20Job{Store: true})
 		jobs = append(jobs, c20Job{Fault: true})
+		jobs = append(jobs, c20Job{Cache: true})
 		for _, wr := range c20Writers {
 			for _, dbg := range []bool{false, true} {
 				for _, leg := range []bool{false, true} {
@@ -861,7 +881,7 @@ func init() {
 		for n := range c20Errors {
 			names = append(names, n)
 		}
-		r.Bounds = map[string]any{"errors": len(names), "fragments": len(c20Frags), "fragment_depth": depth, "writers": c20Writers, "formats": []string{"new", "legacy"}, "debug_exposure": []bool{false, true}, "storage_flows": c20Flows, "storage_strategies": []string{"hmac", "jwt"}, "storage_error_text": "a generic storage error carrying a recognisable text is injected at every storage call of every C18 flow, both error formats, debug exposure off: the text must not appear and the error code must be an RFC code; likewise the transport error of a failed request_uri fetch"}
+		r.Bounds = map[string]any{"cache_headers": map[string]any{"writers": c20CacheWriters, "cache_control_already_on_the_writer": c20CachePresets}, "errors": len(names), "fragments": len(c20Frags), "fragment_depth": depth, "writers": c20Writers, "formats": []string{"new", "legacy"}, "debug_exposure": []bool{false, true}, "storage_flows": c20Flows, "storage_strategies": []string{"hmac", "jwt"}, "storage_error_text": "a generic storage error carrying a recognisable text is injected at every storage call of every C18 flow, both error formats, debug exposure off: the text must not appear and the error code must be an RFC code; likewise the transport error of a failed request_uri fetch"}
 		r.Rule = "errors: every exported RFC error (and a plain Go error) x hint/debug text built from <= depth nasty fragments x format x debug exposure x writer, the bytes written are re-parsed (JSON / URL / HTML tokenizer); storage: every storage call of every flow is scanned (keys and stored request forms) for secrets that are usable at the moment of the call"
 		r.Assumptions = []string{"the user password necessarily reaches the Authenticate storage call", "a just-consumed credential passed as a key is not a usable secret", "the revocation and introspection writers choose their own error; for them only self-consistency of code and status is checked"}
 		res := r.Pool.Do("c20", jobs, r.Deadline)
@@ -869,6 +889,103 @@ func init() {
 			r.Exhaustive = false
 		}
 	})
+}
+
+// c20CacheHeaders: every Write* function, success and error, on a response writer on which the embedding application
+// (a middleware, a framework default) already set caching headers: what leaves must still be marked no-store / no-cache.
+type c20CacheCase struct {
+	Writer string `json:"writer"`
+	Preset string `json:"preset_cache_control"`
+}
+
+var c20CacheWriters = []string{"access", "access-error", "authorize-query", "authorize-fragment", "authorize-form_post", "authorize-error-query", "authorize-error-direct", "introspection", "introspection-inactive", "introspection-error",
+	"revocation", "revocation-error", "par", "par-error", "device", "device-error"}
+var c20CachePresets = []string{"", "public, max-age=300", "max-age=0", "private"}
+
+func c20CacheRun(c c20CacheCase, res *WRes) {
+	w := NewWorld(Profile{})
+	ctx := context.Background()
+	rec := httptest.NewRecorder()
+	if c.Preset != "" {
+		rec.Header().Set("Cache-Control", c.Preset)
+		rec.Header().Set("Pragma", "public")
+		rec.Header().Set("Expires", "Thu, 01 Jan 2032 00:00:00 GMT")
+	}
+	ec := w.AddClient("E", "secret-E", false)
+	ec.RedirectURIs = []string{"https://A.example/cb"}
+	mkAR := func(mode fosite.ResponseModeType, valid bool) *fosite.AuthorizeRequest {
+		ar := fosite.NewAuthorizeRequest()
+		ar.Client = ec
+		ar.State = "state-12345678"
+		ar.ResponseMode = mode
+		ar.DefaultResponseMode = mode
+		if valid {
+			u, _ := url.Parse("https://A.example/cb")
+			ar.RedirectURI = u
+		}
+		return ar
+	}
+	authzResp := func() *fosite.AuthorizeResponse {
+		r := fosite.NewAuthorizeResponse()
+		r.AddParameter("code", "ory_ac_abc.def")
+		r.AddParameter("state", "state-12345678")
+		return r
+	}
+	accReq := fosite.NewAccessRequest(NewSess("user-1"))
+	accReq.Client = ec
+	e := fosite.ErrInvalidRequest.WithHint("nope")
+	switch c.Writer {
+	case "access":
+		resp := fosite.NewAccessResponse()
+		resp.SetAccessToken("ory_at_abc.def")
+		resp.SetTokenType("bearer")
+		w.Prov.WriteAccessResponse(ctx, rec, accReq, resp)
+	case "access-error":
+		w.Prov.WriteAccessError(ctx, rec, accReq, e)
+	case "authorize-query":
+		w.Prov.WriteAuthorizeResponse(ctx, rec, mkAR(fosite.ResponseModeQuery, true), authzResp())
+	case "authorize-fragment":
+		w.Prov.WriteAuthorizeResponse(ctx, rec, mkAR(fosite.ResponseModeFragment, true), authzResp())
+	case "authorize-form_post":
+		w.Prov.WriteAuthorizeResponse(ctx, rec, mkAR(fosite.ResponseModeFormPost, true), authzResp())
+	case "authorize-error-query":
+		w.Prov.WriteAuthorizeError(ctx, rec, mkAR(fosite.ResponseModeQuery, true), e)
+	case "authorize-error-direct":
+		w.Prov.WriteAuthorizeError(ctx, rec, mkAR(fosite.ResponseModeQuery, false), e)
+	case "introspection":
+		w.Prov.WriteIntrospectionResponse(ctx, rec, &fosite.IntrospectionResponse{Active: true, AccessRequester: accReq, TokenUse: fosite.AccessToken})
+	case "introspection-inactive":
+		w.Prov.WriteIntrospectionResponse(ctx, rec, &fosite.IntrospectionResponse{Active: false, AccessRequester: accReq})
+	case "introspection-error":
+		w.Prov.WriteIntrospectionError(ctx, rec, e)
+	case "revocation":
+		w.Prov.WriteRevocationResponse(ctx, rec, nil)
+	case "revocation-error":
+		w.Prov.WriteRevocationResponse(ctx, rec, fosite.ErrInvalidClient)
+	case "par":
+		w.Prov.WritePushedAuthorizeResponse(ctx, rec, mkAR(fosite.ResponseModeQuery, true), &fosite.PushedAuthorizeResponse{RequestURI: "urn:ietf:params:oauth:request_uri:abc", ExpiresIn: 300, Header: http.Header{}, Extra: map[string]interface{}{}})
+	case "par-error":
+		w.Prov.WritePushedAuthorizeError(ctx, rec, mkAR(fosite.ResponseModeQuery, true), e)
+	case "device":
+		dr := fosite.NewDeviceResponse()
+		dr.DeviceCode, dr.UserCode = "ory_dc_abc.def", "ABCDEFGH"
+		w.Prov.WriteDeviceResponse(ctx, rec, fosite.NewDeviceRequest(), dr)
+	case "device-error":
+		w.Prov.WriteAccessError(ctx, rec, fosite.NewDeviceRequest(), e)
+	}
+	res.Trans++
+	hdr := rec.Header()
+	cc := strings.Join(hdr.Values("Cache-Control"), ", ")
+	pr := strings.Join(hdr.Values("Pragma"), ", ")
+	res.class(fmt.Sprintf("cache-headers:%s:%d", c.Writer, rec.Code))
+	res.distinct(fmt.Sprintf("cache%+v", c))
+	if c.Writer == "introspection-error" && rec.Code == 200 {
+		// RFC 7662 answers some failures as {"active":false}: still a response of the endpoint, judged below
+	}
+	if !strings.Contains(cc, "no-store") || !strings.Contains(pr, "no-cache") || strings.Contains(cc, "public") || strings.Contains(cc, "max-age=300") {
+		res.violate(Violation{Property: "C20", Fingerprint: "C20/missing-cache-headers/" + c.Writer + "/preset=" + map[bool]string{true: "none", false: "application-set"}[c.Preset == ""],
+			What: fmt.Sprintf("the %s response leaves with Cache-Control %q / Pragma %q (the response writer came with Cache-Control %q): not marked no-store / no-cache", c.Writer, cc, pr, c.Preset), Engine: "c20cache", Case: c, Expected: "Cache-Control: no-store, Pragma: no-cache", Observed: hdr})
+	}
 }
 
 // c20HTMLRepresentable: what an HTML attribute can carry of s (invalid UTF-8 bytes and NUL become U+FFFD one by
